@@ -285,8 +285,8 @@ fn build_entry(out: &mut Vec<u8>, node: &PathTreeNode) {
         // A length byte of 0xFF is the node value marker, so one fragment
         // holds at most 254 bytes; longer names are split into fragments
         // (the parser concatenates the fragments of one entry).
-        const MAX_FRAGMENT_LEN: usize = (NODE_VALUE_MARKER - 1) as usize;
-        for chunk in name_bytes.chunks(MAX_FRAGMENT_LEN) {
+        let max_fragment_len = usize::from(NODE_VALUE_MARKER - 1);
+        for chunk in name_bytes.chunks(max_fragment_len) {
             out.push(chunk.len() as u8);
             out.extend_from_slice(chunk);
         }
